@@ -114,7 +114,7 @@ var TemplateNames = []string{
 	"leading-lookahead", "bumpalong-loop", "loop-then-x", "loop-ending-loop-body", "alt-shared-prefix",
 	"alt-shared-set-prefix", "atomic-alternation", "nested-atomic", "lookbehind-loop", "conditional-loop",
 	"wide-literal", "negated-first-set", "counted-group-loop", "lazy-loop-then-x", "alt-with-empty",
-	"start-anchor-G", "backref-after-loop", "lookaround-conditional", "alt-counted-set-prefix", "loop-then-optional-group", "group-loop-overlapping-head", "long-literal", "lookbehind-group-loop", "landmark-overlap", "lazy-group-loop", "capture-loop-backref", "long-counted-set", "balancing-pop", "balancing-pop-mirrored", "landmark-alternation", "alt-shared-lead-byte", "counted-literal-group", "optional-overlapping-set-loop",
+	"start-anchor-G", "backref-after-loop", "lookaround-conditional", "alt-counted-set-prefix", "loop-then-optional-group", "group-loop-overlapping-head", "long-literal", "lookbehind-group-loop", "landmark-overlap", "lazy-group-loop", "capture-loop-backref", "long-counted-set", "balancing-pop", "balancing-pop-mirrored", "landmark-alternation", "alt-shared-lead-byte", "counted-literal-group", "optional-overlapping-set-loop", "threshold-count", "case-like-punctuation-set",
 }
 
 // Template builds template number k with random leaves.
@@ -402,6 +402,52 @@ func (t *T) Template(k int) *Node {
 			return Cat(first, t.Cap(second), end, &Node{K: KBackref, Ref: t.gid}, t.tail())
 		}
 		return Cat(t.Cap(first), second, end, &Node{K: KBackref, Ref: t.gid}, t.tail())
+	case "threshold-count":
+		// fixed counts and literal lengths around the constants of the analysers and filters
+		// (4 iterations, 8 bytes, 20 expansions, 32 / 50 / 64 / 256 characters, 1024 repeats)
+		ns := []int{3, 4, 5, 6, 7, 8, 9, 19, 20, 21, 22, 31, 32, 33, 49, 50, 51, 63, 64, 65}
+		if t.R.Intn(4) == 0 {
+			ns = []int{255, 256, 257, 1023, 1024, 1025, 1100}
+		}
+		n := ns[t.R.Intn(len(ns))]
+		a, b := t.l(), t.l()
+		for b == a {
+			b = rune('0' + t.R.Intn(10))
+		}
+		var core *Node
+		switch t.R.Intn(6) {
+		case 0:
+			core = Cat(Rep(L(a), n, n), L(b))
+		case 1:
+			core = Cat(t.set(), Rep(L(a), n, n), L(b))
+		case 2:
+			core = Cat(Rep(NC(S(string([]rune{a, b}))), n, n), S(t.word(1)))
+		case 3:
+			core = Cat(Rep(NC(L(a)), n, n), L(b), L(b))
+		case 4:
+			if n > 300 {
+				n = 300
+			}
+			core = Cat(S(t.word(n)), t.unit()) // a literal of n runes
+		default:
+			core = Cat(Dot(), Rep(Cls(false, CR(a)), n, n), L(b))
+		}
+		if t.R.Intn(3) == 0 {
+			return Cat(&Node{K: KOptGroup, On: "i", Kids: []*Node{core}}, t.tail())
+		}
+		return Cat(core, t.tail())
+	case "case-like-punctuation-set":
+		// ASCII punctuation pairs that differ by 0x20 like letters do ([ and {, \ and |, ] and },
+		// ^ and ~, @ and `): not case pairs, whatever a bit trick says
+		pairs := [][2]rune{{'[', '{'}, {'\\', '|'}, {']', '}'}, {'^', '~'}, {'@', '`'}}
+		pr := pairs[t.R.Intn(len(pairs))]
+		set := Cls(false, CR(pr[0]), CR(pr[1]))
+		rest := []*Node{L('"'), L(pr[0]), L('_'), S(t.word(1))}[t.R.Intn(4)]
+		n := Cat(set, rest, t.tail())
+		if t.R.Intn(2) == 0 {
+			return Cat(&Node{K: KOptGroup, On: "i", Kids: []*Node{n}})
+		}
+		return n
 	case "balancing-pop-mirrored":
 		// the mirror image of balancing-pop: read right to left the pushes come first, so the cancelled
 		// capture lies to the right of the balancing group (left to right the pop finds nothing to pop)
